@@ -23,7 +23,8 @@
 
 using namespace sim;
 
-namespace sim { void register_all_properties(); void sched_end_of_run(uint64_t* sched_hash); }
+namespace sim { void register_all_properties(); void sched_end_of_run(uint64_t* sched_hash); bool sched_poisoned(); }
+#define EXIT_RESTART 80
 
 static std::string g_rundir = "/verif/.run";
 static std::string g_verif = "/verif";
@@ -152,7 +153,7 @@ static RunResult execute(const Property* P, RunCtx& ctx, bool keep_text) {
 // ---------------------------------------------------------------- child execution (gate / shrink / replay)
 struct ChildSpec {
     const Property* P; uint64_t seed, index; bool thorough;
-    bool use_tape = false; std::vector<uint32_t> tape; int64_t focus = -1, focus2 = -1; bool keep_text = false; unsigned timeout_s = 120;
+    bool use_tape = false; std::vector<uint32_t> tape; int64_t focus = -1, focus2 = -1; bool keep_text = false; unsigned timeout_s = 120; int64_t warm = -1;
 };
 struct ChildResult {
     bool ok_exec = false;      // child produced a result record
@@ -213,6 +214,11 @@ static ChildResult run_child(const ChildSpec& cs) {
         int efd = open(errpath.c_str(), O_WRONLY | O_CREAT | O_TRUNC, 0644);
         if (efd >= 0) { dup2(efd, 2); close(efd); }
         alarm(cs.timeout_s);
+        if (cs.warm >= 0) {   // diagnostics: give the process some history first (as a campaign worker has)
+            RunCtx wc; wc.seed = cs.seed; wc.index = (uint64_t)cs.warm; wc.thorough = cs.thorough;
+            T.start_generate(cs.seed, fnv(cs.P->id, strlen(cs.P->id)), (uint64_t)cs.warm);
+            (void)execute(cs.P, wc, false);
+        }
         RunCtx ctx; ctx.seed = cs.seed; ctx.index = cs.index; ctx.thorough = cs.thorough;
         ctx.focus = cs.focus; ctx.focus2 = cs.focus2;
         if (cs.use_tape) T.start_replay(cs.tape); else T.start_generate(cs.seed, fnv(cs.P->id, strlen(cs.P->id)), cs.index);
@@ -430,6 +436,7 @@ static void worker_main(const Property* P, int w, uint64_t seed, bool thorough) 
             if (!k && SH->violations >= 24) __atomic_store_n(&SH->stop, 1, __ATOMIC_RELAXED);
         }
         __atomic_store_n(&SH->cur_index[w], ~0ull, __ATOMIC_RELAXED);
+        if (sched_poisoned()) _exit(EXIT_RESTART);     // a run ended with tasks in flight: continue in a fresh process
     }
     _exit(0);
 }
@@ -442,7 +449,7 @@ static void usage() {
 
 int main(int argc, char** argv) {
     std::string prop, tier = "quick", replay;
-    uint64_t runs = 0, seed = 0; int jobs = 16; int64_t one = -1; bool list = false; bool verbose = false;
+    uint64_t runs = 0, seed = 0; int jobs = 16; int64_t one = -1, warm = -1; bool list = false; bool verbose = false;
     if (const char* e = getenv("VERIF_SEED")) seed = strtoull(e, nullptr, 10);
     if (const char* e = getenv("VERIF_TIER")) if (*e) tier = e;
     if (const char* e = getenv("VERIF_JOBS")) jobs = atoi(e);
@@ -458,6 +465,7 @@ int main(int argc, char** argv) {
         else if (a == "--seed") seed = strtoull(next(), nullptr, 10);
         else if (a == "--one") one = strtoll(next(), nullptr, 10);
         else if (a == "--replay") replay = next();
+        else if (a == "--warm") warm = strtoll(next(), nullptr, 10);
         else if (a == "--list") list = true;
         else if (a == "-v") verbose = true;
         else { usage(); return 2; }
@@ -500,7 +508,7 @@ int main(int argc, char** argv) {
 
     // ---- single index in a child, verbose
     if (one >= 0) {
-        ChildSpec cs{P, seed, (uint64_t)one, thorough}; cs.keep_text = true;
+        ChildSpec cs{P, seed, (uint64_t)one, thorough}; cs.keep_text = true; cs.warm = warm;
         ChildResult r = run_child(cs);
         printf("index %" PRId64 ": status=%d sig=%s hash=%" PRIu64 " exit=%d signal=%d\n", one, r.status, r.sig.c_str(), r.hash, r.exit_code, r.term_sig);
         printf("plan: %s\ndetail: %s\ntags:", r.sample.c_str(), r.detail.c_str());
@@ -565,6 +573,7 @@ int main(int argc, char** argv) {
         if (w < 0) continue;
         bool clean = WIFEXITED(st) && WEXITSTATUS(st) == 0;
         if (clean) { live--; pids[(size_t)w] = 0; continue; }
+        if (WIFEXITED(st) && WEXITSTATUS(st) == EXIT_RESTART) { if (!SH->stop) spawn(w); else { live--; pids[(size_t)w] = 0; } continue; }
         uint64_t idx = SH->cur_index[w];
         int ec = WIFEXITED(st) ? WEXITSTATUS(st) : 0, sg = WIFSIGNALED(st) ? WTERMSIG(st) : 0;
         if (ec == EXIT_HARNESS) { harness_fail++; fprintf(stderr, "worker %d reported a harness bug at index %" PRIu64 ":\n%s\n", w, idx, slurp(errfiles[(size_t)w]).substr(0, 2000).c_str()); }
